@@ -1,4 +1,4 @@
-import DoitModel.Proofs.C09WaitP
+import DoitModel.Proofs.C09TermP
 /-! # C09 — every run terminates; dependency cycles are diagnosed, never hung on
 
 Property theorems only (model: `Model/Run.lean`, `Model/RunC09.lean`; invariants: `Proofs/Run*.lean`, `Proofs/C09*.lean`).
@@ -145,26 +145,146 @@ theorem C09_cyclic_ends_run_parallel (inp : RunInput) (s : Sys) (d : Name) (perm
     exitCode (finishRun (raise s .cyclic)) = 3 ∧ (finishRun (raise s .cyclic)).rpc = .halted := by
   refine ⟨by simp [mainStep, h1, h2], rfl, rfl, rfl⟩
 
-/-! ### termination and diagnosis: full statements (monitored on every implementation run, not proved) -/
+/-! ### termination
 
-/-- every run of the model is finite: there is no infinite sequence of enabled choices.  NOT proved (the potential
-    function of DESIGN §5 C09 is not built); the harness runs every case under a watchdog instead. -/
-def C09_terminates_full : Prop :=
-  ∀ inp : RunInput, ¬ ∃ (f : Nat → Sys) (c : Nat → Choice), f 0 = init inp ∧ ∀ i, stepOf inp (f i) (c i) = some (f (i + 1))
+`FiniteTable inp N` (Proofs/C09Term1.lean): every task name the table mentions — selection, task_dep, calc_dep, setup,
+calc results — is an index below `N`.  Without it the statement is false in the model (a `RunInput` is a family of
+functions on `Nat`: `taskDep n = [n + 1]` creates nodes for ever). -/
 
-/-- a cycle in the closure of the selection is diagnosed: a run that ends normally (no error, not stopped by a
-    failure) has an acyclic closure graph, and no task on a cycle is ever started.  NOT proved as a whole (needs the
-    order invariant "every terminal report of a task comes after the terminal reports of its dependencies" beyond
-    C01's `go`-events); instances: `C09_common_parent_diagnosed*`. -/
-def C09_cycle_diagnosed_full : Prop :=
-  ∀ inp : RunInput, ∀ s, (Reach inp s ∨ PReach inp s) → ∀ nTasks : Nat,
+/-- C09 (terminates), dispatcher + serial runner, FULL: on a finite task table — any graph (cyclic ones included), any
+    selection, oracle, flags — there is no infinite run, whatever order the `set`s are iterated in.  Proof
+    (`Proofs/C09Term1-3.lean`): every transition strictly decreases the lexicographic measure
+    (`L1` names without a node, `L2` Σ calc_deps still to be delivered, `lin` a weighted sum of list lengths of the
+    `ExecNode`s, a rank of the generator position with a gap at each `yield this_task`, the dispatcher queues and a rank
+    of the runner's program counter); `generator.send` (`_update_waiting`) never increases the dispatcher part. -/
+theorem C09_terminates_serial (inp : RunInput) (hser : inp.runner = .serial) (N : Nat) (hF : FiniteTable inp N) :
+    ¬ ∃ (f : Nat → Sys) (c : Nat → Choice), f 0 = init inp ∧ ∀ i, stepOf inp (f i) (c i) = some (f (i + 1)) :=
+  serial_terminates hser hF
+
+/-- the step form: every transition of the serial system from a reachable state decreases the measure -/
+theorem C09_serial_step_decreases (inp : RunInput) (N : Nat) (hF : FiniteTable inp N) (s s' : Sys) (hr : Reach inp s)
+    (c : Choice) (hs : step inp s c = some s') : MLt inp N s' s := by
+  cases c with
+  | main perm => exact serialStep_mlt hF (created_lt hF hr) (created_lt hF (Reach.next hr hs)) hs
+  | take w => cases hs
+  | done w => cases hs
+
+/-- C09 (terminates), parallel runners (`MRunner` / `MThreadRunner`), FULL: on a finite task table there is no infinite
+    run, for every worker interleaving at queue-operation granularity, every `numProcess`, graph, oracle and flags.
+    The measure of the serial system is extended (`Proofs/C09TermP.lean`) by `U2` — tasks without a final status, which
+    pays for the `free_proc + 1` calls of `get_next_job` after each processed result —, by the job / result queues and
+    the executing workers, and by the loop counters of `_run_start_processes` and of the feed loop.  A `JobHold` taken
+    by a worker shortens the job queue; the main thread blocked in `result_q.get()` is simply not enabled, so "no
+    infinite run" also says that the workers cannot spin for ever while it waits. -/
+theorem C09_terminates_parallel (inp : RunInput) (hpar : inp.runner ≠ .serial) (N : Nat) (hF : FiniteTable inp N) :
+    ¬ ∃ (f : Nat → Sys) (c : Nat → Choice), f 0 = init inp ∧ ∀ i, stepOf inp (f i) (c i) = some (f (i + 1)) :=
+  parallel_terminates hpar hF
+
+/-- the step form for the parallel system -/
+theorem C09_parallel_step_decreases (inp : RunInput) (N : Nat) (hF : FiniteTable inp N) (s s' : Sys)
+    (hr : PReach inp s) (c : Choice) (hs : pstep inp s c = some s') : MLtP inp N s' s :=
+  pstep_mltP hF hr hs
+
+/-- C09 (terminates), all three runners: every run of the model on a finite task table is finite — there is no
+    infinite sequence of enabled choices (the statement that was `def C09_terminates_full`, now a theorem; the
+    hypothesis `FiniteTable` is needed, see the section header) -/
+theorem C09_terminates (inp : RunInput) (N : Nat) (hF : FiniteTable inp N) :
+    ¬ ∃ (f : Nat → Sys) (c : Nat → Choice), f 0 = init inp ∧ ∀ i, stepOf inp (f i) (c i) = some (f (i + 1)) := by
+  by_cases h : inp.runner = .serial
+  · exact C09_terminates_serial inp h N hF
+  · exact C09_terminates_parallel inp h N hF
+
+/-! ### a cycle in the closure of the selection is diagnosed (FULL)
+
+`cycleTasks inp nTasks tr` (Model/RunC09.lean) is what the monitor computes from a trace: the members of the closure of
+the selection (`closureOf`) that lie on a cycle of the closure graph `edgesAt` — task_dep, calc_dep (listed and
+delivered), what finished calc_deps delivered, and the setup-tasks of the tasks whose first `select_task` pass chose
+them for execution.  `BoundedCalc inp nTasks`: every calc_dep name is a task index below `nTasks`, so that the `nTasks`
+rounds of the monitor's fixed-point iteration `calcsAt` suffice (`Proofs/C09Fuel.lean`; without it the statement is
+false, `C09_cycle_diagnosed_fuel_counterexample`).
+
+Proof (`Proofs/C09Ord*.lean`, `Proofs/C09Cycle.lean`): the invariant `InvT` — in every reachable state the terminal
+report (`add_success` / `add_failure` / `skip_uptodate` / `skip_ignore`) of a task is younger than the terminal report
+of every dependency the run has determined for it (`g1`: task_dep, calc_dep, delivered; `g2`: setup-tasks when the
+first pass chose it) — makes the age of the first terminal report a rank that decreases along `edgesAt`, so a reported
+task lies on no cycle.  A started task has all its `edgesAt`-successors reported (C01, `start_after_depsAt`); at a
+normal end every selected task is reported (C02, `all_processed_*`). -/
+
+/-- C09 (cycle diagnosed), serial runner, FULL: (1) a run that ends normally — `run_tasks` returned, no exception, not
+    stopped by a failure — has no cycle in the closure graph of its selection; (2) in every reachable state (every
+    prefix of every run) no task on a cycle of the closure graph has been started -/
+theorem C09_cycle_diagnosed_serial (inp : RunInput) (s : Sys) (hr : Reach inp s) (nTasks : Nat)
+    (hb : BoundedCalc inp nTasks) :
     (s.rpc = .halted → s.halt = .none → s.stop = false → cycleTasks inp nTasks (trace inp s) = []) ∧
-    (∀ t ∈ cycleTasks inp nTasks (trace inp s), s.events.countP (Ev.isStartOf t) = 0)
+    (∀ t ∈ cycleTasks inp nTasks (trace inp s), s.events.countP (Ev.isStartOf t) = 0) :=
+  cycle_diagnosed_serial hr nTasks (calcsSat_of_bounded hb _)
 
-/-- what IS proved of termination (`C09_terminates_full` is not): `halted` is final for the main thread of both
-    systems, and a raised cyclic error reaches it in two steps (`C09_cyclic_ends_run_*`).  Missing: the potential
-    function showing that every run reaches `halted` (DESIGN §5 C09); the harness runs every case under a watchdog. -/
-theorem C09_terminates_partial (inp : RunInput) (s : Sys) (perm : List Name) (h : s.rpc = .halted) :
+/-- the same for the parallel runners: every worker interleaving, every `numProcess` -/
+theorem C09_cycle_diagnosed_parallel (inp : RunInput) (s : Sys) (hr : PReach inp s) (nTasks : Nat)
+    (hb : BoundedCalc inp nTasks) :
+    (s.rpc = .halted → s.halt = .none → s.stop = false → cycleTasks inp nTasks (trace inp s) = []) ∧
+    (∀ t ∈ cycleTasks inp nTasks (trace inp s), s.events.countP (Ev.isStartOf t) = 0) :=
+  cycle_diagnosed_parallel hr nTasks (calcsSat_of_bounded hb _)
+
+/-- C09 (cycle diagnosed), all three runners: the statement that was `def C09_cycle_diagnosed_full`, now a theorem -/
+theorem C09_cycle_diagnosed (inp : RunInput) (s : Sys) (hr : Reach inp s ∨ PReach inp s) (nTasks : Nat)
+    (hb : BoundedCalc inp nTasks) :
+    (s.rpc = .halted → s.halt = .none → s.stop = false → cycleTasks inp nTasks (trace inp s) = []) ∧
+    (∀ t ∈ cycleTasks inp nTasks (trace inp s), s.events.countP (Ev.isStartOf t) = 0) := by
+  rcases hr with a | a
+  · exact C09_cycle_diagnosed_serial inp s a nTasks hb
+  · exact C09_cycle_diagnosed_parallel inp s a nTasks hb
+
+/-- consequently: if the closure of the selection has a cycle and the run was not cut short by a failure, then — unless
+    doit died of an internal error (`halt = crash`: an `assert` of the dispatcher / of `MRunner`; excluded for the
+    `"hold on"` paths by `C09_no_deadlock_*`) — the run ended with the cyclic-dependency error and exit code 3 -/
+theorem C09_cycle_exit3 (inp : RunInput) (s : Sys) (hr : Reach inp s ∨ PReach inp s) (nTasks : Nat)
+    (hb : BoundedCalc inp nTasks) (hcyc : cycleTasks inp nTasks (trace inp s) ≠ []) (hend : s.rpc = .halted)
+    (hstop : s.stop = false) (hnc : s.halt ≠ .crash) : s.halt = .cyclic ∧ exitCode s = 3 := by
+  have h := (C09_cycle_diagnosed inp s hr nTasks hb).1 hend
+  cases hh : s.halt with
+  | none => exact absurd (h hh hstop) hcyc
+  | cyclic => exact ⟨rfl, by simp [exitCode, hh]⟩
+  | crash => exact absurd hh hnc
+
+/-- stronger than "never started": a task on a cycle of the closure graph is never reported at all — not executed, not
+    skipped as up-to-date or ignored, not reported failed/unmet (a terminal report would rank it below itself) -/
+theorem C09_cycle_task_never_reported (inp : RunInput) (s : Sys) (hr : Reach inp s ∨ PReach inp s) (nTasks : Nat)
+    (hb : BoundedCalc inp nTasks) (t : Name) (hc : onCycle inp nTasks (trace inp s) t = true) :
+    s.events.countP (Ev.isTerminalOf t) = 0 := by
+  have hT : InvT inp s := by
+    rcases hr with a | a
+    · exact reach_invT a
+    · exact preach_invT a
+  have h2 : Inv2 inp s := by
+    rcases hr with a | a
+    · exact reach_inv2 a
+    · exact (preach_inv a).1
+  cases hf : fstTerm s.events t with
+  | some a => rw [reported_not_onCycle hT h2 (calcsSat_of_bounded hb _) hf] at hc; cases hc
+  | none =>
+    apply List.countP_eq_zero.mpr
+    intro e he
+    simp [fstTerm_none_iff.mp hf e he]
+
+/-- the order invariant behind it, all three runners, every graph: in every reachable state, every edge `t → d` of the
+    closure graph out of a task that has a terminal report leads to a task whose terminal report is older -/
+theorem C09_report_after_dependencies (inp : RunInput) (s : Sys) (hr : Reach inp s ∨ PReach inp s) (nTasks : Nat)
+    (hb : BoundedCalc inp nTasks) (t : Name) (a : Nat) (ha : fstTerm s.events t = some a) :
+    ∀ d ∈ edgesAt inp nTasks (trace inp s) t, ∃ b, fstTerm s.events d = some b ∧ b < a := by
+  have hT : InvT inp s := by
+    rcases hr with x | x
+    · exact reach_invT x
+    · exact preach_invT x
+  have h2 : Inv2 inp s := by
+    rcases hr with x | x
+    · exact reach_inv2 x
+    · exact (preach_inv x).1
+  exact edge_older hT h2 (calcsSat_of_bounded hb _) ha
+
+/-- `halted` is final for the main thread of both systems (and a raised cyclic error reaches it in two steps,
+    `C09_cyclic_ends_run_*`) -/
+theorem C09_halted_final (inp : RunInput) (s : Sys) (perm : List Name) (h : s.rpc = .halted) :
     serialStep inp s perm = none ∧ mainStep inp s perm = none := by
   simp [serialStep, mainStep, h]
 
@@ -192,16 +312,37 @@ theorem C09_common_parent_diagnosed_parallel :
   ⟨_, autoRun_preach (by decide) false false 200 _ PReach.init, by decide +kernel, by decide +kernel,
     by decide +kernel⟩
 
-/-- what IS proved of `C09_cycle_diagnosed_full`: the instances above (a cycle the ancestors test cannot see is
-    diagnosed with exit code 3 and nothing executed, serial and two workers) and, in general, that a raised cyclic
-    error ends the run with exit code 3 (`C09_cyclic_ends_run_*`).  Missing: that EVERY cyclic closure leads to the
-    error (needs the order invariant "a task is reported only after its dependencies" for all terminal reports). -/
-theorem C09_cycle_diagnosed_partial :
-    (∃ s, Reach exCommonParent s ∧ s.rpc = .halted ∧ s.halt = .cyclic ∧ exitCode s = 3) ∧
+/-- non-vacuity of `C09_cycle_diagnosed_*`: the common-parent graph satisfies `BoundedCalc`, its run reaches the end
+    with a non-empty `cycleTasks` (tasks 1 and 2), the cyclic error and exit code 3 — serial and with two workers -/
+theorem C09_cycle_diagnosed_nonvacuous :
+    BoundedCalc exCommonParent 3 ∧
+    (∃ s, Reach exCommonParent s ∧ s.rpc = .halted ∧ s.halt = .cyclic ∧ exitCode s = 3 ∧
+      cycleTasks exCommonParent 3 (trace exCommonParent s) = [1, 2]) ∧
     (∃ s, PReach { exCommonParent with runner := .thread, numProc := 2 } s ∧ s.rpc = .halted ∧ s.halt = .cyclic ∧
       exitCode s = 3) := by
-  obtain ⟨s, a, b, c, d, _⟩ := C09_common_parent_diagnosed
-  exact ⟨⟨s, a, b, c, d⟩, C09_common_parent_diagnosed_parallel⟩
+  refine ⟨fun t => ⟨by simp [exCommonParent], by simp [exCommonParent]⟩, ?_, C09_common_parent_diagnosed_parallel⟩
+  exact ⟨_, autoRun_reach (by decide) false false 200 _ Reach.init, by decide +kernel, by decide +kernel,
+    by decide +kernel, by decide +kernel⟩
+
+/-- the hypothesis `BoundedCalc` is needed (the `def C09_cycle_diagnosed_full` of the earlier rounds, which quantified
+    over every `nTasks`, is false): task 0 has the calc_dep 1, which delivers the calc_dep 2, which delivers the calc_dep
+    3, which fails; 0 is reported `unmet`, its setup-task 4 (which depends on 0) is never created and the run ends
+    normally under `--continue`.  With the fuel `nTasks = 1` the monitor's `calcsAt` stops at `[1, 2]`, takes 0 for
+    chosen by the first pass and sees the cycle 0 → 4 → 0. -/
+def exFuel : RunInput :=
+  { taskDep := fun n => if n = 4 then [0] else []
+    calcDep := fun n => if n = 0 then [1] else []
+    setup := fun n => if n = 0 then [4] else []
+    calcRes := fun n => if n = 1 then { calcs := [2] } else if n = 2 then { calcs := [3] } else {}
+    outcome := fun n => if n = 3 then .failed else .ok
+    continue_ := true
+    sel := [0] }
+
+theorem C09_cycle_diagnosed_fuel_counterexample :
+    ∃ s, Reach exFuel s ∧ s.rpc = .halted ∧ s.halt = .none ∧ s.stop = false ∧
+      cycleTasks exFuel 1 (trace exFuel s) ≠ [] ∧ cycleTasks exFuel 5 (trace exFuel s) = [] :=
+  ⟨_, autoRun_reach (by decide) false false 400 _ Reach.init, by decide +kernel, by decide +kernel,
+    by decide +kernel, by decide +kernel, by decide +kernel⟩
 
 /-- the pinned dispatcher (no `_check_deadlock`), serial runner: the same input ends in an internal error
     (`select_task("hold on")`: AttributeError) instead of the diagnosis, and the monitor rejects that run -/
@@ -257,6 +398,16 @@ theorem C09_exAcyclic_acyclic : Acyclic exAcyclic := by
     · simp at h
   | resT _ h => simp [exAcyclic] at h
   | resF _ h => simp [exAcyclic] at h
+
+/-- … and is a finite task table with 5 tasks, and satisfies the fuel hypothesis of `C09_cycle_diagnosed_*`: the
+    hypotheses of `C09_terminates_serial` and `C09_cycle_diagnosed_*` hold of a graph with every edge kind -/
+theorem C09_exAcyclic_finite : FiniteTable exAcyclic 5 ∧ BoundedCalc exAcyclic 5 := by
+  refine ⟨⟨?_, ?_, ?_, ?_, ?_, ?_, ?_⟩, fun t => ⟨?_, ?_⟩⟩
+  all_goals first
+    | (intro n d h; simp only [exAcyclic] at h; repeat' split at h
+       all_goals (simp at h; try first | (subst h; decide) | (rcases h with rfl | rfl <;> decide)))
+    | (intro d h; simp only [exAcyclic] at h; repeat' split at h
+       all_goals (simp at h; try first | (subst h; decide) | (rcases h with rfl | rfl <;> decide)))
 
 /-- … on which the run ends normally after executing all five tasks (so the theorems above are about runs that do
     pass through `waiting` and `"hold on"` states: three workers, two of them idle most of the time) -/
